@@ -34,6 +34,23 @@ fn main() {
         eprintln!("watchdog: time budget of {budget}s exhausted — inconclusive");
         std::process::exit(2);
     });
+    // fixed-work quick tiers: scale factors measured so that each quick check runs ~15-40 s on 16 cores
+    vcore::set_quick_scale(match id.as_str() {
+        "C01" => 25,
+        "C02" => 4,
+        "C03" | "C06" | "C16" | "C17" | "C21" | "C22" => 20,
+        "C04" | "C13" | "C27" => 30,
+        "C07" => 4,
+        "C08" | "C09" | "C10" | "C11" | "C25" => 5,
+        "C12" => 3,
+        "C14" | "C32" => 50,
+        "C15" | "C18" | "C19" => 15,
+        "C20" | "C30" => 6,
+        "C28" | "C26" => 2,
+        "C29" | "C34" => 8,
+        "C31" => 10,
+        _ => 1,
+    });
     match id.as_str() {
         "C01" => txcheck::c01(&mut ctx),
         "C02" => histcheck::c02(&mut ctx),
